@@ -5,6 +5,16 @@ cannot follow."""
 from mir import op_place, place_is_local, op_is_const
 
 
+def _pkey(p):
+    """fact key of a place: the local, or (local, field index) for a single field projection (tuple element)"""
+    pr = p.get('p') or []
+    if not pr:
+        return p['l']
+    if len(pr) == 1 and isinstance(pr[0], dict) and 'f' in pr[0]:
+        return (p['l'], pr[0]['f'])
+    return None
+
+
 def _fact_of_rv(body, rv, facts):
     k = rv['k']
     if k == 'use':
@@ -19,8 +29,9 @@ def _fact_of_rv(body, rv, facts):
                 return ('int', v)
             return None
         q = op_place(op)
-        if q and place_is_local(q):
-            return facts.get(q['l'])
+        if q:
+            key = _pkey(q)
+            return facts.get(key) if key is not None else None
         return None
     if k == 'aggr' and rv.get('kind') == 'adt' and rv.get('variant'):
         return ('variant', rv['variant'])
@@ -35,7 +46,17 @@ def step_block(body, b, facts, variants_of=None):
             continue
         p = s['place']
         if place_is_local(p):
-            nf = _fact_of_rv(body, s['rv'], f)
+            for kk in [x for x in f if isinstance(x, tuple) and x[0] == p['l']]:
+                f.pop(kk, None)
+            rv = s['rv']
+            if rv['k'] == 'aggr' and rv.get('kind') == 'tuple':
+                f.pop(p['l'], None)
+                for i_, o in enumerate(rv.get('ops') or []):
+                    sub = _fact_of_rv(body, {'k': 'use', 'op': o}, f)
+                    if sub is not None:
+                        f[(p['l'], i_)] = sub
+                continue
+            nf = _fact_of_rv(body, rv, f)
             if nf is None:
                 f.pop(p['l'], None)
             else:
@@ -81,6 +102,10 @@ def step_block(body, b, facts, variants_of=None):
     elif k == 'switch':
         q = op_place(t['op'])
         arms = {a[0]: a[1] for a in t['arms']}
+        if q and not place_is_local(q) and _pkey(q) is not None:
+            ff = f.get(_pkey(q))
+            if ff and ff[0] == 'bool' and t.get('op_ty') == 'bool':
+                succ = [arms.get(1 if ff[1] else 0, t['otherwise'])]
         if q and place_is_local(q):
             ff = f.get(q['l'])
             if ff and ff[0] == 'bool' and t.get('op_ty') == 'bool':
@@ -89,8 +114,8 @@ def step_block(body, b, facts, variants_of=None):
             else:
                 # discriminant(local) ?
                 sd = body.single_def(q['l'])
-                if sd and sd[2] == 'assign' and sd[3]['rv']['k'] == 'discr' and place_is_local(sd[3]['rv']['place']):
-                    src = sd[3]['rv']['place']['l']
+                if sd and sd[2] == 'assign' and sd[3]['rv']['k'] == 'discr' and _pkey(sd[3]['rv']['place']) is not None:
+                    src = _pkey(sd[3]['rv']['place'])
                     ff = f.get(src)
                     if ff and ff[0] == 'variant':
                         idx = {'None': 0, 'Some': 1, 'Ok': 0, 'Err': 1, 'Pending': 1, 'Ready': 0, 'Continue': 0, 'Break': 1}.get(ff[1])
@@ -106,7 +131,7 @@ def explore(body, start, stops, watch, facts0=None, avoid=(), limit=200000):
     return / unreachable / diverging calls are reported with their last block and kind."""
     out = []
     seen = set()
-    work = [(start, tuple(sorted((facts0 or {}).items())), frozenset())]
+    work = [(start, tuple(sorted((facts0 or {}).items(), key=repr)), frozenset())]
     n = 0
     avoid = set(avoid)
     while work:
@@ -131,7 +156,7 @@ def explore(body, start, stops, watch, facts0=None, avoid=(), limit=200000):
         if t['k'] in ('return', 'unreachable', 'coroutine_drop') or not succ:
             out.append((('end', t['k'], b), passed, f2))
             continue
-        ft2 = tuple(sorted(f2.items()))
+        ft2 = tuple(sorted(f2.items(), key=repr))
         for s in succ:
             work.append((s, ft2, passed))
     return out
